@@ -1364,10 +1364,14 @@ def correspondence(ctx):
         add("C12.point_to_box", mode, _enc(pts[0], mode) + _pose_tokens(T, mode) + _enc(size, mode),
             np.concatenate([[r[0]], r[1]]), max(scale, kscale, float(np.max(size))), "point_to_box", si, False)
         r = support_function_capsule(d0, T, float(rad), float(hgt))
+        # `local_dir[2] > 0.0` decides between +h/2 and -h/2: when the exact value is 0 (or below rounding), BLAS/FMA
+        # rounding residues and the exact model may legitimately take different branches (DESIGN 3.1: tie)
+        tie = abs(float(np.dot(T[:3, 2], d0))) <= 1e-12
         add("C12.support_capsule", mode, _enc(d0, mode) + _pose_tokens(T, mode) + _enc([rad, hgt], mode),
-            ("sup", A(r)), max(scale, rad, hgt), "support_function_capsule", si, False)
+            ("sup-tie" if tie else "sup", A(r)), max(scale, rad, hgt), "support_function_capsule", si, False)
 
     out = drv.run()
+    tag_of = {cid: (impl[0] if isinstance(impl, tuple) else None) for cid, _m, impl, _s, _n, _si, _e in plan}
     for cid, mode, impl, scale, name, si, exact in plan:
         m = out.get(cid, "bad missing")
         parts = m.split()
@@ -1396,6 +1400,9 @@ def correspondence(ctx):
                                     "point_to_box", "support_function_capsule"):
             tol = max(tol, 1e-9 * scale)     # Rat sqrt is an enclosure; float rounding of sqrt / division
         err = float(np.max(np.abs(vals - impl))) if len(vals) else 0.0
+        if not (err <= tol) and isinstance(tag_of.get(cid), str) and tag_of[cid] == "sup-tie":
+            ctx.branch(name, "tie")
+            continue
         if not (err <= tol):
             ctx.broke("correspondence", name,
                       "model and implementation differ by %.3g (tolerance %.3g, mode %s): model=%s impl=%s"
@@ -1428,9 +1435,11 @@ def search(ctx):
         relate_colliders(ctx, st, s1, s2, stream, rng, 1e-2, 1e2)
     ctx.extra["relations"] = st.rel
     ctx.extra["raised"] = st.raised
-    for fn, d in st.rel.items():
-        for kk, v in d.items():
-            ctx.branch("rel:" + fn, kk) if False else None
+    n_uninit = st.raised.get("epa: gjk simplex has uninitialised rows", 0)
+    if n_uninit:
+        ctx.notes.append("gjk (gjk_distance_jolt) returned a simplex with rows that were never written (Y = np.empty((4, 3)), "
+                         "GJK stopped with fewer than 4 points) in %d overlapping scenes of this run; epa() on such a simplex is "
+                         "not reproducible and was not called there (subject of C01/C07, reported to those verticals)" % n_uninit)
     ctx.branches["relations"] = {fn + "/" + kk: v for fn, d in st.rel.items() for kk, v in d.items()}
 
 
